@@ -1466,3 +1466,128 @@ func derivesFromParam(v ssa.Value, p *ssa.Parameter) bool {
 	}
 	return false
 }
+
+// ---------------------------------------------------------------------------------------------
+// I9 packets handed out are not written to afterwards
+//
+// A *Packet travels from parsePacket through the pool to the PacketsParser callback, to NextPacket's caller and into
+// DemuxerData.FirstPacket; whoever received it may still hold it. In the code reachable from NextPacket/NextData/Rewind a
+// store into a Packet, PacketAdaptationField or PacketAdaptationExtensionField is therefore legitimate only while the
+// object is under construction: the address is rooted at an allocation of the storing function itself.
+func (a *A) PacketsNotMutated() {
+	const rule = "I9"
+	var roots []*ssa.Function
+	for _, n := range []string{"Demuxer.NextPacket", "Demuxer.NextData", "Demuxer.Rewind"} {
+		if f := a.anchor(rule, n); f != nil {
+			roots = append(roots, f)
+		}
+	}
+	if len(roots) != 3 {
+		return
+	}
+	tracked := map[string]bool{"Packet": true, "PacketAdaptationField": true, "PacketAdaptationExtensionField": true}
+	reach := a.reachableFuncs(roots...)
+	var fs []*ssa.Function
+	for f := range reach {
+		fs = append(fs, f)
+	}
+	sort.Slice(fs, func(i, j int) bool { return fs[i].Pos() < fs[j].Pos() })
+	fresh, bad := 0, 0
+	for _, f := range fs {
+		n := 0
+		for _, b := range f.Blocks {
+			for _, in := range b.Instrs {
+				st, ok := in.(*ssa.Store)
+				if !ok {
+					continue
+				}
+				fa, ok := st.Addr.(*ssa.FieldAddr)
+				if !ok {
+					continue
+				}
+				// innermost tracked owner on the address chain
+				var owner ssa.Value
+				ownerName := ""
+				for cur := fa; cur != nil; {
+					if pt, ok := cur.X.Type().Underlying().(*types.Pointer); ok {
+						if nm, ok := pt.Elem().(*types.Named); ok && tracked[nm.Obj().Name()] && nm.Obj().Pkg() == a.P.Pkg.Types {
+							owner, ownerName = cur.X, nm.Obj().Name()
+						}
+					}
+					next, _ := cur.X.(*ssa.FieldAddr)
+					cur = next
+				}
+				if owner == nil {
+					continue
+				}
+				root := owner
+				for {
+					if x, ok := root.(*ssa.FieldAddr); ok {
+						root = x.X
+						continue
+					}
+					break
+				}
+				if freshObject(f, root, 0) {
+					fresh++
+					continue
+				}
+				n++
+				bad++
+				a.R.Bad(rule, fmt.Sprintf("%s/store-into-%s#%d", bare(f), ownerName, n), a.ipos(st),
+					fmt.Sprintf("%s writes a field of a %s it did not allocate itself (%s): the object may already be in the hands of a PacketsParser, of NextPacket's caller or of a delivered DemuxerData, which sees it change afterwards", bare(f), ownerName, instrText(st)))
+			}
+		}
+	}
+	a.R.Check(bad == 0, rule, "packets-written-only-under-construction", "", fmt.Sprintf("%d stores into Packet/PacketAdaptationField/PacketAdaptationExtensionField objects in the %d functions reachable from NextPacket/NextData/Rewind, all rooted at an allocation of the storing function", fresh, len(fs)), fmt.Sprintf("%d stores into objects allocated elsewhere", bad))
+	a.R.Floor(rule, "stores into packets under construction", fresh, 10)
+}
+
+// freshObject: v is an object allocated by f itself — an allocation of f, or the value loaded from a field of such an
+// object when every store of f into that field (of that object) stores an allocation of f
+// (`a.Ext = &Ext{}; a.Ext.X = …`).
+func freshObject(f *ssa.Function, v ssa.Value, depth int) bool {
+	if depth > 4 {
+		return false
+	}
+	if al, ok := v.(*ssa.Alloc); ok {
+		return al.Parent() == f
+	}
+	ld, ok := v.(*ssa.UnOp)
+	if !ok || ld.Op != token.MUL {
+		return false
+	}
+	fa, ok := ld.X.(*ssa.FieldAddr)
+	if !ok {
+		return false
+	}
+	base := fa.X
+	for {
+		if x, ok := base.(*ssa.FieldAddr); ok {
+			base = x.X
+			continue
+		}
+		break
+	}
+	if !freshObject(f, base, depth+1) {
+		return false
+	}
+	n := 0
+	for _, b := range f.Blocks {
+		for _, in := range b.Instrs {
+			st, ok := in.(*ssa.Store)
+			if !ok {
+				continue
+			}
+			sa, ok := st.Addr.(*ssa.FieldAddr)
+			if !ok || sa.Field != fa.Field || sa.X != fa.X {
+				continue
+			}
+			n++
+			if al, ok := st.Val.(*ssa.Alloc); !ok || al.Parent() != f {
+				return false
+			}
+		}
+	}
+	return n > 0
+}
